@@ -216,3 +216,22 @@ def all_units():
 def unit(path):
     """'base/QXmppIq.cpp' -> absolute path"""
     return os.path.join(_src_root(), path)
+
+
+def extract_control(path, like_unit='base/QXmppUtils.cpp'):
+    """facts for a positive-control translation unit under /verif/controls, compiled with the flags of a real unit"""
+    units = configure()
+    e = units.get(unit(like_unit))
+    if not e:
+        raise AnalysisBroken('control: unit %s not in compile database' % like_unit)
+    args = clang_args(e)
+    out_dir = os.path.join(WORK, 'facts')
+    os.makedirs(out_dir, exist_ok=True)
+    key = _sha(path, _file_sha(path), _file_sha(QXV), ' '.join(args), headers_hash())[:24]
+    out = os.path.join(out_dir, 'control__' + os.path.basename(path) + '.' + key + '.json')
+    if not os.path.exists(out):
+        r = subprocess.run([QXV, '--out', out, '--root', os.path.dirname(path), '--'] + args + [path],
+                           stdout=subprocess.PIPE, stderr=subprocess.PIPE, text=True)
+        if not os.path.exists(out):
+            raise AnalysisBroken('control %s failed to extract: %s' % (path, r.stderr[-800:]))
+    return {path: out}
